@@ -475,6 +475,9 @@ func (g *gen) field(thisField, thatField string, fieldType types.Type) (string, 
 				return fmt.Sprintf("%s.Compare(&%s)", wrap(thisField), thatField), nil
 			} else if _, ok := ityp.(*types.Interface); ok {
 				return fmt.Sprintf("%s.Compare(&%s)", wrap(thisField), thatField), nil
+			} else if !types.AssignableTo(fieldType, ityp) && types.AssignableTo(types.NewPointer(fieldType), ityp) {
+				// a named interface that only the pointer type implements
+				return fmt.Sprintf("%s.Compare(&%s)", wrap(thisField), thatField), nil
 			} else {
 				return fmt.Sprintf("%s.Compare(%s)", wrap(thisField), thatField), nil
 			}
